@@ -4,6 +4,7 @@ use serde_json::Value;
 
 use crate::report::{CheckInfo, Partial, Tier, Violation};
 
+pub mod c01;
 pub mod c02;
 pub mod c05;
 pub mod c06;
@@ -32,6 +33,7 @@ pub struct CheckDef {
 
 pub fn all() -> Vec<CheckDef> {
     vec![
+        c01::def(),
         c02::def(),
         srvchecks::def_c03(),
         srvchecks::def_c04(),
